@@ -185,6 +185,7 @@ def main(tier, seed, replay):
             doc['coordinate system'] = {'model': 'spherical', 'depth method': 'starting point'}
             if ctx.R != 6371000.0:
                 doc['coordinate system']['radius'] = ctx.R
+        t['R'] = ctx.R
         pts = gen_points(wrng, t, ctx, 100, Hclass)
         fn = 'w%d.wb' % i
         c = core.Case('w%d' % i, files={fn: wg.dumps(doc)})
@@ -228,7 +229,12 @@ def main(tier, seed, replay):
             scale_tol = 1.0
             if ref['found']:
                 want_d = ref['distance']     # distance_to_plane is signed for faults too
-                bad = (not math.isfinite(lib_d)) or abs(lib_d - want_d) > TOL_ABS + TOL_REL * abs(want_d) or abs(lib_a - ref['along']) > TOL_ABS + TOL_REL * abs(ref['along'])
+                # close to the vertical through the trench the foot error of the trench-curve solver (its stop rule leaves up to ~2e-7 of the
+                # trench length along the trench; C19) changes the horizontal distance by foot_error^2 / (2|h|): observed 1.3e-3 m at
+                # |h| = 6.5 m on a 1820 km trench
+                Ltr = t['Lt'] if not t['sph'] else t['R'] * math.radians(abs(t['lon1'] - t['lon0']) if t['orient'] == 'equator' else 2 * t['a'])
+                foot_tol = (2e-7 * Ltr) ** 2 / (2.0 * max(abs(p['h']), 1.0))
+                bad = (not math.isfinite(lib_d)) or abs(lib_d - want_d) > TOL_ABS + foot_tol + TOL_REL * abs(want_d) or abs(lib_a - ref['along']) > TOL_ABS + foot_tol + TOL_REL * abs(ref['along'])
                 if bad and t['sph']:
                     # signature of the non-orthonormal local frame of spherical worlds: h' = (r + rho) sin(phi/2), same v
                     h2 = (p['r'] + p['rho']) * math.sin(p['phi'] / 2.0)
